@@ -145,6 +145,19 @@ def families(thorough):
             s.append(Case(t, stop='X', params=st))
             s.append(Case(t, stop='X', params=st, roles=(1, 1)))
     F['params'] = s
+    # -- idle_client_in_transaction_timeout: the deadline may fire at any read inside a transaction
+    s = []
+    for t in (['begin', 'select', 'commit'], ['begin', 'select', 'select2', 'commit', 'select'], ['begin', 'set', 'select'], ['begin', 'copyin', 'd', 'c', 'commit'],
+              ['begin', 'P', 'B', 'E', 'S', 'commit'], ['begin', 'error', 'rollback'], ['begin', 'Ps', 'S', 'Bs', 'E', 'S', 'commit']):
+        for stop in ('X', 'eof'):
+            s.append(Case(t, stop=stop, idle_timeout=True))
+        s.append(Case(t, stop='X', idle_timeout=True, mode='session'))
+    for t in (['sleep'], ['begin', 'sleep', 'commit'], ['select', 'sleep', 'select2'], ['set', 'sleep'], ['begin', 'select', 'sleep']):
+        for stop in ('X', 'eof'):
+            s.append(Case(t, stop=stop, stmt_timeout=True))
+        s.append(Case(t, stop='X', stmt_timeout=True, mode='session'))
+        s.append(Case(t, stop='X', stmt_timeout=True, second=['select']))
+    F['timeouts'] = s
     # -- a second client after the first: nothing of the first is visible to it
     s = []
     for a, pa in ((["q:SET TimeZone TO 'Asia/Tokyo'", 'select'], {'application_name': 'app_a'}), (['begin', "q:SET DateStyle TO 'German'", 'commit'], {}),
@@ -215,6 +228,7 @@ DESCR = {
     'plugins': 'query parser on, the plugin verdict (allow / deny / intercept) of every parsed statement SYMBOLIC',
     'status': 'statements after each of which the backend reports a SYMBOLIC transaction status (any status PostgreSQL can reach from the previous one)',
     'params': 'sessions of a client whose startup values of tracked parameters differ from the servers\' (incl. a value with a quote), SETs of tracked and untracked parameters outside and inside BEGIN, on one server and on two (either may serve each transaction)',
+    'timeouts': 'transactions of a client while idle_client_in_transaction_timeout is configured: at every read inside the transaction loop the deadline fires or not (solver\'s choice), afterwards the session goes on; and sessions with statement_timeout configured in which a slow statement is or is not answered in time',
     'two-clients': 'a first client (tracked-parameter SETs, named statements with caching on, an open transaction / COPY / session state at EOF) followed by a second client on the same server connections with its own parameters, statement names and requests',
     'copy': 'COPY IN sessions whose CopyData chunks have sizes on both sides of the 8196-byte forwarding threshold (1-3 chunks, CopyDone or CopyFail, then another query)',
     'commands': 'sessions that use the pooler commands (SET SHARD / SET SHARDING KEY with SYMBOLIC decimal digits, SHOW SHARD, SET SERVER ROLE, SET PRIMARY READS) on a pool of two shards or of a primary and a replica, outside and inside BEGIN',
@@ -244,7 +258,7 @@ def handle_obligations(chk, prog, props, fams):
     tasks = []
     for fam in fams:
         cases = F[fam]
-        n = max(1, min(12, len(cases) // (4 if fam in ('status', 'plugins', 'malformed', 'commands', 'cache', 'params', 'two-clients') else 40)))
+        n = max(1, min(12, len(cases) // (4 if fam in ('status', 'plugins', 'malformed', 'commands', 'cache', 'params', 'two-clients', 'timeouts') else 40)))
         for i in range(n):
             tasks.append((prog, fam, i, n, cases[i::n], set(props)))
     chk.parallel(_run_chunk, tasks)
